@@ -195,7 +195,7 @@ theorem hinv_storeApp (c : Cl) (e : Ev) (m t k : Nat) (h : HInv c) : HInv (store
 
 theorem epoch_merge_lt (mp : Nat) (g : GState) (e : Ev) (b : Body) (sw : List Nat) (hk : e.kind = .commit b sw) :
     epochOf g.path < epochOf (syncRec (ensureSecret (mergeCommit mp g e))).path := by
-  have : (mergeCommit mp g e).path = g.path ++ [e.n] := by
+  have : (mergeCommit mp g e).path = g.path ++ [e.cipher] := by
     unfold mergeCommit; rw [hk]
   simp only [syncRec, ensureSecret_path, this, epochOf, List.length_append, List.length_singleton]
   omega
@@ -248,7 +248,11 @@ theorem hinv_step1 (retry : Cl → Option (Cl × Res)) (nx : Nat) (c : Cl) (e : 
                 (pendOK_of_eq _ _ rfl (pendOK_ensure _ (pendOK_merge _ _ _ hw.pend))) (epoch_merge_lt _ _ _ pb psw hpk)
               exact this
             · exact hinv_ownMessage _ e hw
-          · exact hinv_processCommit _ e _ _ hk hw
+          · split
+            · exact hinv_failUnprocessable _ e hw
+            · exact hinv_processCommit _ e _ _ hk
+                (hinv_g _ _ hw (secOK_mono (withSecret c).g _ rfl (List.prefix_refl _) hw.sec)
+                  (pendOK_of_eq (withSecret c).g _ rfl hw.pend) (Nat.le_refl _))
       · -- leave
         split
         · exact hinv_failUnprocessable _ e hw
